@@ -47,7 +47,11 @@ func resolveStruct(rv reflect.Value, fieldName string) (any, bool) {
 
 	// Try field name first
 	if f, ok := rt.FieldByName(fieldName); ok {
-		fv := rv.FieldByIndex(f.Index)
+		// a field promoted through a nil embedded pointer is absent (FieldByIndex would panic)
+		fv, err := rv.FieldByIndexErr(f.Index)
+		if err != nil {
+			return nil, false
+		}
 		if !fv.CanInterface() {
 			// unexported field: report absence instead of panicking
 			return nil, false
